@@ -418,7 +418,11 @@ func (e *Exec) do(op *Op) (err error, skipped string) {
 		if oerr != nil {
 			return oerr, ""
 		}
-		e.DS[op.Path] = ds
+		if op.Name != "" { // second handle on the same object under an alias key
+			e.DS[op.Name] = ds
+		} else {
+			e.DS[op.Path] = ds
+		}
 		return nil, ""
 	case "rb_disable":
 		if !needFW() {
